@@ -17,6 +17,9 @@
             [heap_lnk_of_frame].
     PART E  ownership and [WF] transfer: [WF_refocus] (re-establish [WF] after an edit of one
             children list), [WF_lookup_*] (what the heap contains at a node of the forest).
+    PART F  data changes: [set_data] ([flat_set_data]: exactly one flat entry changes),
+            [WF_set_data] (re-establish [WF] after a change of one node's data, possibly with
+            a different set of owned strings).
     See FOREST_NOTES.md for how these are combined in a simulation proof. *)
 From CJ Require Import Base Dbl Heap Forest.
 From CJ Require Export ForestLinks.
